@@ -147,7 +147,9 @@ def scn_equiv(T, case):
         return
     # the same ensemble with the failed realizations (and the everywhere-failed perturbation) removed
     Rr, Pr = nok, len(pkeep)
-    wr = T.np.array([w[r] for r in keep])
+    # ... and its weights renormalised: the reduced configuration is a validated one (weights sum to one), so that the comparison
+    # does not rest on the code under test normalising both runs alike
+    wr = T.np.array([w[r] / tot for r in keep])
     Or = T.np.array([[O[r, j] for j in range(J)] for r in keep])
     POr = T.np.array([[[PO[r, p, j] for j in range(J)] for p in pkeep] for r in keep])
     Sr = T.np.array([[[S[r, p, i] for i in range(N)] for p in pkeep] for r in keep])
